@@ -109,6 +109,11 @@ func genReq(k *kernel.K, id int, hosts []string, maxSize int) *ReqSpec {
 			r.Framing = "cl"
 			r.Chunks, r.Trailer = nil, nil
 		}
+		if w.Chance(1, 2) {
+			// an HTTP/1.0 client that asks for a persistent connection
+			r.Header = append(r.Header, wire.HF{Name: "Connection", Value: "keep-alive"})
+			k.Probe("http10_client_asks_keep_alive")
+		}
 	}
 	return r
 }
@@ -186,7 +191,24 @@ func respAsksClose(rs *RespSpec, method string) bool {
 	return false
 }
 
-func reqAsksClose(r *ReqSpec) bool { return r.Close || r.Proto == "HTTP/1.0" }
+func reqAsksClose(r *ReqSpec) bool {
+	if r.Proto == "HTTP/1.0" {
+		for _, h := range r.Header {
+			if strings.EqualFold(h.Name, "Connection") && strings.EqualFold(h.Value, "keep-alive") {
+				return r.Close
+			}
+		}
+		return true
+	}
+	return r.Close
+}
+
+// c01Downgraded: a chunked origin response for an HTTP/1.0 client is passed on without chunk
+// framing and without a length - its end is the end of the connection, so the proxy has to say so
+// and to close, even if the client asked for a persistent connection.
+func c01Downgraded(ex *c01Ex) bool {
+	return ex.req.Proto == "HTTP/1.0" && ex.req.Method != "HEAD" && ex.sentResp != nil && ex.sentResp.Framing == "chunked"
+}
 
 func runC01(k *kernel.K) {
 	w := k.W
@@ -539,7 +561,7 @@ func runC01(k *kernel.K) {
 		// then does not close either, to wait for a close that never comes).
 		for j := 0; j < len(fin) && j < len(c.Script); j++ {
 			ex := exs[c.Script[j].Spec.ID]
-			if fin[j].WantsClose() && !reqAsksClose(ex.req) && !(ex.sentResp != nil && respAsksClose(ex.sentResp, ex.req.Method)) {
+			if fin[j].WantsClose() && !reqAsksClose(ex.req) && !(ex.sentResp != nil && respAsksClose(ex.sentResp, ex.req.Method)) && !c01Downgraded(ex) {
 				closed := j == len(fin)-1 && (c.SawEOF || c.SawRST)
 				k.Fail("C01.keepalive", map[string]string{"announced": "close_nobody_asked_for", "method": ex.req.Method}, "%s: the response to request #%d (%s, origin response %d framed %q) announces Connection: close although neither the client nor the origin asked to close; the proxy closed the connection afterwards: %v", c.Name, ex.id, ex.req.Method, ex.sentResp.Status, ex.sentResp.Framing, closed)
 				break
@@ -553,6 +575,8 @@ func runC01(k *kernel.K) {
 			who = "client"
 		} else if lastEx.sentResp != nil && respAsksClose(lastEx.sentResp, lastEx.req.Method) {
 			who = "origin"
+		} else if c01Downgraded(lastEx) {
+			who = "proxy_for_http10_client"
 		}
 		if len(fin) == len(c.Script) && c.P.Err == nil {
 			if who == "none" {
